@@ -127,6 +127,28 @@ pub fn stateful_modules() -> Vec<(&'static str, Vec<u8>)> {
             (func (export "ddrop") (data.drop $dpas))
             (func (export "call") (param i32) (result i32) (call_indirect $t0 (type $t) (i32.rem_u (local.get 0) (i32.const 6))))
             (func (export "rf") (result i32) (ref.is_null (ref.func $f))))"#),
+        // every width of atomic load / store / read-modify-write at an address taken from the first
+        // parameter (mod 64): an unaligned atomic access traps where the plain access of the same
+        // width would not
+        ("atomics-alignment", r#"(module (memory (export "mem") 1) (data (i32.const 0) "\11\22\33\44\55\66\77\88\99\aa\bb\cc\dd\ee\ff\01") (func (export "l32") (param i32) (result i32) (i32.atomic.load (i32.and (local.get 0) (i32.const 63))))
+            (func (export "l32_8") (param i32) (result i32) (i32.atomic.load8_u (i32.and (local.get 0) (i32.const 63))))
+            (func (export "l32_16") (param i32) (result i32) (i32.atomic.load16_u (i32.and (local.get 0) (i32.const 63))))
+            (func (export "l64") (param i32) (result i32) (i32.wrap_i64 (i64.atomic.load (i32.and (local.get 0) (i32.const 63)))))
+            (func (export "l64_8") (param i32) (result i32) (i32.wrap_i64 (i64.atomic.load8_u (i32.and (local.get 0) (i32.const 63)))))
+            (func (export "l64_16") (param i32) (result i32) (i32.wrap_i64 (i64.atomic.load16_u (i32.and (local.get 0) (i32.const 63)))))
+            (func (export "l64_32") (param i32) (result i32) (i32.wrap_i64 (i64.atomic.load32_u (i32.and (local.get 0) (i32.const 63)))))
+            (func (export "s32") (param i32 i32) (i32.atomic.store (i32.and (local.get 0) (i32.const 63)) (local.get 1)))
+            (func (export "s32_8") (param i32 i32) (i32.atomic.store8 (i32.and (local.get 0) (i32.const 63)) (local.get 1)))
+            (func (export "s32_16") (param i32 i32) (i32.atomic.store16 (i32.and (local.get 0) (i32.const 63)) (local.get 1)))
+            (func (export "s64") (param i32 i32) (i64.atomic.store (i32.and (local.get 0) (i32.const 63)) (i64.extend_i32_u (local.get 1))))
+            (func (export "s64_8") (param i32 i32) (i64.atomic.store8 (i32.and (local.get 0) (i32.const 63)) (i64.extend_i32_u (local.get 1))))
+            (func (export "s64_16") (param i32 i32) (i64.atomic.store16 (i32.and (local.get 0) (i32.const 63)) (i64.extend_i32_u (local.get 1))))
+            (func (export "s64_32") (param i32 i32) (i64.atomic.store32 (i32.and (local.get 0) (i32.const 63)) (i64.extend_i32_u (local.get 1))))
+            (func (export "a32") (param i32 i32) (result i32) (i32.atomic.rmw.add (i32.and (local.get 0) (i32.const 63)) (local.get 1)))
+            (func (export "a32_16") (param i32 i32) (result i32) (i32.atomic.rmw16.add_u (i32.and (local.get 0) (i32.const 63)) (local.get 1)))
+            (func (export "a64_32") (param i32 i32) (result i32) (i32.wrap_i64 (i64.atomic.rmw32.add_u (i32.and (local.get 0) (i32.const 63)) (i64.extend_i32_u (local.get 1)))))
+            (func (export "x64") (param i32 i32) (result i32) (i32.wrap_i64 (i64.atomic.rmw.xchg (i32.and (local.get 0) (i32.const 63)) (i64.extend_i32_u (local.get 1)))))
+            (func (export "c32") (param i32 i32) (result i32) (i32.atomic.rmw.cmpxchg (i32.and (local.get 0) (i32.const 63)) (local.get 1) (local.get 1))))"#),
     ];
     srcs.into_iter().map(|(n, s)| (n, wat::parse_str(s).unwrap_or_else(|e| panic!("stateful module {}: {}", n, e)))).collect()
 }
